@@ -10,7 +10,7 @@ RULES = {
            '(b) the C10 exploration runs. Oracle after EVERY operation once terminated is True: exactly one of exitstatus/'
            'signalstatus set and equal to the kernel\'s record of the death, status decodes to the same, values identical after '
            'every later operation, wait() returns the exit code, and wait()/isalive()==False/close() leave terminated True. '
-           'Non-trivial: the child died during the run; distinct by trace digest',
+           'Ninth round: operations abandoned from outside (interrupt fault: wait(), close(), terminate() and reads), and C09.unobserved for a read that hit EOF on a dead, reapable child (no exit gap). Non-trivial: the child died during the run; distinct by trace digest',
     'C10': '(a) complete: every operation sequence of length <= 2 (3 in the thorough tier) over {isalive, wait, kill(sig), '
            'terminate(False/True), close(False/True), sendeof, expect(EOF), send, read, with-exit-by-exception, del+gc} x child '
            'disposition {normal, ignores HUP/INT, stopped, already exited, ignores+stopped}, and every sequence of length <= 3 over '
@@ -20,7 +20,7 @@ RULES = {
            'table; terminate(force=True)==True and close() leave the child dead AND reaped; close() releases the descriptor and '
            'sets closed/child_fd; a second close makes no descriptor call; I/O after close raises; no intercepted call ever names '
            'the decoy; dropping the object reaps the child and closes the descriptor. '
-           'Non-trivial: >= 1 lifecycle operation executed; distinct by trace digest',
+           'Ninth round: operations abandoned from outside (interrupt fault; not inside finalisers); one awaited call under an event loop of its own that is closed afterwards (asyncio.run) with the object closed / dropped later outside any loop. Non-trivial: >= 1 lifecycle operation executed; distinct by trace digest',
 }
 
 RULES['C10'] += (' Added later: an awaited expect(EOF) (asyncio closing the object), fdspawn with use_poll, the rarely used descriptor '
